@@ -25,7 +25,8 @@ PROPERTY = 'C16'
 LEVEL = 'exploration'
 EXHAUSTIVE = True
 
-RULE = ('13 base workflows (dirchain: P -> Q consuming the directory of P -> C consuming the directory of Q; direct: one component consuming a data file inside its arguments plus a :copy file; one: '
+RULE = ('14 base workflows (mentions: a consumer whose command line mentions a produced file three times and a data '
+        'file twice; dirchain: P -> Q consuming the directory of P -> C consuming the directory of Q; direct: one component consuming a data file inside its arguments plus a :copy file; one: '
         'consumer of a file of one producer; chain: producer -> producer -> consumer; two: consumer of two producers '
         'named A-B and B; dir / dircopy: consumer of the working directory of a producer inside / outside its '
         'arguments; k8s: direct with a container image; ext: direct with an absolute path outside the instance; bin / '
@@ -45,7 +46,7 @@ RULE = ('13 base workflows (dirchain: P -> Q consuming the directory of P -> C c
         'names, 7 producer names, stage index (+1, same stage with relative references, all stages +1), stage names, '
         'absolute/relative spelling, every permutation of the reference list, unused variables (component/global/'
         'stage), 5 resource requests, instance directory (2 depths, package name, instance name, no timestamp, '
-        'reloaded from the instance, moved then reloaded, executables checked/resolved or not), file times (2001/2033), unrelated component / data file, '
+        'reloaded from the instance, moved then reloaded, executables checked/resolved or not), file times (2001/2033; modification times against the natural name order, with it, rotated), unrelated component / data file, '
         'same content under another name / under input / at another absolute path, value spelled through a '
         'variable; missing: every consumed file and every upstream file removed, also upstream of working-directory '
         'references (dir, dirchain): the consumer must then have no hash; history: each of those files missing when '
